@@ -480,6 +480,40 @@ def _registration_name(h):
     return stripped and len(regs) == 1 and norm(regs[0].targets[0].slice) == var and norm(regs[0].value) == "g"
 
 
+def values_rule(prog, rep):
+    """value semantics of variables: a built-in must not change the values its arguments are bound to"""
+    from ..heap import mutations_of_param
+    from ..rules_own import transform_analysis
+    from .c19 import ALLOWED
+
+    rep.rule("VALUES", "no registered built-in writes at or below its (non-injected) arguments, except the annotating transforms, which add their own keys to event.data (C19): otherwise a variable passed to a built-in no longer evaluates to the value it was assigned (`a = ...; b = f(a); RETURN = a`)")
+    annot = set()
+    for v in ALLOWED.values():
+        annot |= {x for x in v if isinstance(x, str)}
+    n = 0
+    for fi in prog.registry():
+        own = [p for p in fi.params if fi.annotations.get(p) not in ("Datastore", "TNamespace")]
+        if not own:
+            continue
+        _, an = transform_analysis(prog, fi.short)
+        for nm in own:
+            idx = fi.params.index(nm)
+            n += 1
+            bad = []
+            for w in mutations_of_param(an, idx):
+                path = tuple(w.node[2])
+                if path == ("*", "data") and w.how == "[...] =" and (w.label in annot or isinstance(w.label, tuple)):
+                    continue  # an annotating transform adding its key
+                bad.append(w)
+            if bad:
+                w = bad[0]
+                what = ".".join(str(x) for x in w.node[2]) or "<the list itself>"
+                rep.violation("VALUES", fi.short, f"argument {nm}", f"the built-in modifies its argument: `{w.how}` on {nm}{'[' + what + ']' if what else ''} in {w.fn} at {w.loc}: after `x = {fi.name[3:]}({nm}, ...)` the variable bound to `{nm}` (and every alias of it) no longer holds the value it was assigned", w.loc, found=[repr(x) for x in bad[:4]])
+            else:
+                rep.ok("VALUES", fi.short, f"argument {nm}", "not modified (annotation keys aside)", fi.loc())
+    rep.floor("built-in arguments analysed", n, 25)
+
+
 def registry_rule(prog, rep):
     rep.rule("REGISTRY", "every registered query function takes its Datastore / TNamespace parameters first, in that order (the wrapper strips the injected arguments by position) and the wrappers forward all remaining positional arguments in order; qtypes lists exactly the subclasses of QToken, each defining check, parse and interpret")
     reg = prog.registry()
@@ -586,6 +620,7 @@ def check(prog, rep):
     loops_rule(prog, rep)
     assignment_rule(prog, rep)
     registry_rule(prog, rep)
+    values_rule(prog, rep)
     spacing_rule(prog, rep)
 
 
@@ -611,6 +646,8 @@ VARIANTS = [
     ("OK statement split with partition", Q2, "    separator_i = line.find(\"=\")\n    var_str = line[:separator_i]\n    val_str = line[separator_i + 1 :]", "    var_str, _sep, val_str = line.partition(\"=\")", "ok"),
     ("OK integer literal through a temporary", Q2, "        return QInteger(int(string))", "        number = int(string)\n        return QInteger(number)", "ok"),
     ("OK variable lookup with dict.get", Q2, "        val = None\n        if string in namespace:\n            val = namespace[string]\n        return QVariable(string, val)", "        return QVariable(string, namespace.get(string))", "ok"),
+    ("B concat extends its first argument in place", "aw_transform/sort_by.py", "    events = events1 + events2\n    return events", "    events1 += events2\n    return events1", "VALUES"),
+    ("B period_union clears the data of its input events (original defect)", "aw_transform/filter_period_intersect.py", "        event = deepcopy(event)\n        event.data = {}", "        event.data = {}", "VALUES"),
     ("B statement loop stops at RETURN", Q2, "            interpret(var, val, namespace, datastore)\n", "            interpret(var, val, namespace, datastore)\n            if var.name == \"RETURN\":\n                break\n", "ASSIGN"),
     ("B non-empty statements starting with # skipped", Q2, "        if statement:\n", "        if statement and not statement.startswith(\"#\"):\n", "ASSIGN"),
     ("B union_no_overlap arguments swapped", QF, "    return union_no_overlap(events1, events2)", "    return union_no_overlap(events2, events1)", "REGISTRY"),
